@@ -204,6 +204,30 @@ def _determine_files_to_relink(
             mappend(change)
 
 
+def _remove_broken_symlinks(path: str, fs: "FileSystem") -> int:
+    is_symlink = getattr(fs, "is_symlink", None)
+    if is_symlink is None:
+        return 0
+
+    def _broken(p: str) -> bool:
+        # NOTE: LocalFileSystem.exists() is lexists()
+        return is_symlink(p) and not (fs.isfile(p) or fs.isdir(p))
+
+    if _broken(path):
+        fs.remove(path)
+        return 1
+
+    removed = 0
+    if fs.isdir(path):
+        for root, dirs, files in fs.walk(path):
+            for name in chain(dirs, files):
+                p = fs.join(root, name)
+                if _broken(p):
+                    fs.remove(p)
+                    removed += 1
+    return removed
+
+
 def _diff(
     path: str,
     fs: "FileSystem",
@@ -235,6 +259,12 @@ def _diff(
             # there and must not overwrite it without force.
             if not force and fs.exists(path):
                 raise
+            if force and _remove_broken_symlinks(path, fs):
+                # NOTE: they hold no data and were all that kept us from
+                # seeing what else is in there.
+                return _diff(
+                    path, fs, obj, cache, relink=relink, ignore=ignore, force=force
+                )
 
     diff = odiff(old, obj, cache)
     if relink:
